@@ -216,7 +216,7 @@ func TestC09(t *testing.T) {
 		ev.Note("exhaustive-grid", fmt.Sprintf("all %d (list,d) pairs: lists of <=3 cues with 0<=s<=e<=4 ms, d in -6..3 ms, over all shards", idx))
 	})
 
-	rapidCheck(t, "C09/random", tier(20000, 2000000), func(rt *rapid.T) {
+	rapidCheck(t, "C09/random", tier(20000, 8000000), func(rt *rapid.T) {
 		span := rapid.SampledFrom([]int64{24 * nsHour, 24 * nsHour, 24 * nsHour, 130 * nsHour, 1000 * nsHour, 6000 * nsHour}).Draw(rt, "span")
 		cues := genCues(rt, 0, 8, span, opTextsWide)
 		if span > 24*nsHour {
